@@ -370,6 +370,12 @@ pub fn load_findings() -> Vec<Finding> {
     })
 }
 
+static FINDINGS: std::sync::OnceLock<Vec<Finding>> = std::sync::OnceLock::new();
+/// Is `sig` an open known finding of `prop`? (file is read once per process, never written)
+pub fn known(prop: &str, sig: &str) -> bool {
+    is_known(FINDINGS.get_or_init(load_findings), prop, sig)
+}
+
 /// Is `sig` an *open* known finding of this property?
 pub fn is_known(findings: &[Finding], prop: &str, sig: &str) -> bool {
     findings.iter().any(|f| f.property == prop && f.status == "open" && f.signature == sig)
@@ -395,13 +401,15 @@ pub fn conclude(cfg: &Cfg, rep: &Report, meta: Meta, start: Instant) -> i32 {
             new_viols.push(v.clone());
         }
     }
-    for (sig, _) in &known {
-        let f = findings.iter().find(|f| f.property == cfg.prop && &f.signature == sig).unwrap();
-        println!("KNOWN-FINDING: property={} {} [{}]", cfg.prop, f.what, sig);
+    // every open finding of this property is announced (its input class is
+    // excluded by construction or its violations are matched by signature)
+    for f in findings.iter().filter(|f| f.property == cfg.prop && f.status == "open") {
+        println!("KNOWN-FINDING: property={} {} [{}; observed {} time(s) in this run]", cfg.prop, f.what, f.signature, known.get(&f.signature).copied().unwrap_or(0));
     }
     let mut replay_paths = vec![];
     if cfg.replay.is_none() {
         let dir = format!("{vd}/replays/{}", cfg.prop);
+        let _ = std::fs::remove_dir_all(&dir);
         let _ = std::fs::create_dir_all(&dir);
         let mut seen = std::collections::BTreeSet::new();
         for v in &new_viols {
